@@ -71,9 +71,23 @@ FORBID = re.compile(r"\b(Admitted|admit|Axiom|Axioms|Parameter|Parameters|Conjec
 
 
 def strip_comments(s):
+    """Remove Coq comments; string literals (which may contain "(*", e.g. pinned Go source text) are
+    replaced by "" so that neither comment openers nor keywords inside them are seen."""
     out, depth, i = [], 0, 0
     while i < len(s):
-        if s.startswith("(*", i):
+        if s[i] == '"':
+            j = i + 1
+            while j < len(s):
+                if s[j] == '"':
+                    if j + 1 < len(s) and s[j + 1] == '"':
+                        j += 2
+                        continue
+                    break
+                j += 1
+            if not depth:
+                out.append('""')
+            i = j + 1
+        elif s.startswith("(*", i):
             depth += 1; i += 2
         elif s.startswith("*)", i) and depth:
             depth -= 1; i += 2
